@@ -13,7 +13,11 @@ TH_BIG = dict(ref.GEN_BIG, ThermalOn="= TRUE", FdVals="= {1, 2, 3}", TeVals="= {
 
 def scenarios(tier, seed):
     sh = core.spec_hash("PPRefHyd", "PPRefTherm", "GenHyd", "Rat")
-    small = core.cached("thsmall" + sh, lambda: ref.gen(TH_SMALL)[1])
+    if tier == "quick":
+        small = core.cached("thsmall1" + sh, lambda: ref.gen(dict(TH_SMALL, MaxSteps="= 1"))[1])
+        small += core.cached("thsmall2s%d" % seed + sh, lambda: ref.gen(TH_SMALL, simulate="num=250", depth=4, seed=seed + 55)[1])
+    else:
+        small = core.cached("thsmall" + sh, lambda: ref.gen(TH_SMALL)[1])
     big = []
     for steps, num in ((3, 80), (4, 120), (5, 120)):
         n = num if tier == "quick" else num * 10
